@@ -4,7 +4,7 @@ from checks import timer_phase, wfail_phase
 
 MANIFEST = dict(
     text='Kernel-checked: every UPF-initiated request takes the counter as sequence number, which is < 2^24 and stays < 2^24 for every counter position (wrap-around included) and is registered under exactly that number; each expiry re-sends the same datagram while the retry count is below the maximum, then the entry is dropped; a response from the same peer with that sequence number releases the entry without any transmission; unmatched responses/expiries leave the whole state unchanged. Tie: differential run with the counter positioned at 0, 5, 2^24-2, 2^24-1 (in-package hook), reports, expiries, matching / wrong-peer / wrong-sequence / duplicated responses, retry counts 0..3; byte-identity monitor.',
-    note='Distinctness: the k-th request since the counter stood at x0 carries (x0+k) mod 2^24, two requests differ iff fewer than 2^24 requests lie between them, and the bound is exact (C09_distinct_within_window, C09_window_bound_exact); that no request stays outstanding over 2^24 later ones is an assumption on the environment (its life is bounded by (N+1)*T). Socket write failures are not in the Coq model; against the code they are exercised by a monitor-only write-failure phase (the first transmission of a Session Report Request fails in the socket: the request is registered all the same, a response with its number from its peer - not from another peer or another port of the peer's host - retires it, the retry budget runs from the failed transmission, the bookkeeping is released). In the differential run time-outs are injected events; a separate real-timer phase (time-outs of 150-200 ms, retry budgets 0..3) runs the real AfterFunc callbacks, the timer.Stop() of TxTransaction.recv and the interplay with receive transactions using the same sequence number, and checks the property on the time-stamped trace (retransmission times, budget, no retransmission after the response, response effective while outstanding, bookkeeping released). With time (model/Timed.v, parameters read from transaction.go / pfcp.go on every run: C09_timer_sites): for every T, N, send time and loop latencies the i-th retransmission is not before t0 + i*T and at most delta late, there are never more than N, after N+1 expiries the request is abandoned and released, nothing after a response (C09_retransmission_schedule, C09_retry_budget_and_release, C09_response_stops_retransmission); a re-arm that can be skipped is refuted (C09_skipped_rearm_refuted). ',
+    note='Distinctness: the k-th request since the counter stood at x0 carries (x0+k) mod 2^24, two requests differ iff fewer than 2^24 requests lie between them, and the bound is exact (C09_distinct_within_window, C09_window_bound_exact); that no request stays outstanding over 2^24 later ones is an assumption on the environment (its life is bounded by (N+1)*T). Socket write failures are not in the Coq model; against the code they are exercised by a monitor-only write-failure phase (the first transmission of a Session Report Request fails in the socket: the request is registered all the same, a response with its number from its peer - not from another peer or another port of the same host - retires it, the retry budget runs from the failed transmission, the bookkeeping is released). In the differential run time-outs are injected events; a separate real-timer phase (time-outs of 150-200 ms, retry budgets 0..3) runs the real AfterFunc callbacks, the timer.Stop() of TxTransaction.recv and the interplay with receive transactions using the same sequence number, and checks the property on the time-stamped trace (retransmission times, budget, no retransmission after the response, response effective while outstanding, bookkeeping released). With time (model/Timed.v, parameters read from transaction.go / pfcp.go on every run: C09_timer_sites): for every T, N, send time and loop latencies the i-th retransmission is not before t0 + i*T and at most delta late, there are never more than N, after N+1 expiries the request is abandoned and released, nothing after a response (C09_retransmission_schedule, C09_retry_budget_and_release, C09_response_stops_retransmission); a re-arm that can be skipped is refuted (C09_skipped_rearm_refuted). ',
     technique='Coq step lemmas on the transmit-transaction table + differential run with positioned counter + byte-identity monitor',
     design='4/C09')
 
